@@ -7,6 +7,7 @@ import (
 	"fmt"
 	"io"
 	"os"
+	"strings"
 	"sync"
 	"sync/atomic"
 	"testing"
@@ -261,6 +262,7 @@ func runCase(d caseDesc) (problem string, inconclusive bool) {
 	if c.carrier == vlib.CarDNS {
 		timeout = 90 * time.Second
 	}
+	timeout += time.Duration((d.LenUp+d.LenDown)>>20) * 30 * time.Second // a bound for a stall, not for throughput
 	// the target is armed before the pair starts: a standard-stream listener opens its logical connection at start-up
 	var pt *vlib.PreparedTransfer
 	p, _, done, err := getPair(c, d.StdioListener, func(tgt *vlib.Target) {
@@ -430,6 +432,12 @@ func runConcurrent(d concDesc) (problem string, inconclusive bool) {
 	if c.carrier == vlib.CarDNS {
 		timeout = 120 * time.Second
 	}
+	// the bound is for a stall, not for throughput: half a minute more per megabyte the case moves
+	total := 0
+	for _, cs := range d.Conns {
+		total += cs.LenUp + cs.LenDown
+	}
+	timeout += time.Duration(total>>20) * 30 * time.Second
 	var mu sync.Mutex
 	tgtProblems := map[uint32]string{}
 	tgtDone := make([]chan struct{}, len(d.Conns))
@@ -550,6 +558,18 @@ func runConcurrent(d concDesc) (problem string, inconclusive bool) {
 	return "", false
 }
 
+// isTimeBound: the problem is a wall-clock bound that was hit (nothing wrong was received).
+func isTimeBound(problem string) bool {
+	return strings.Contains(problem, "i/o timeout") || strings.Contains(problem, "did not receive the")
+}
+
+func minInt(a, b int) int {
+	if a < b {
+		return a
+	}
+	return b
+}
+
 func TestConcurrentTransfers(t *testing.T) {
 	budget := int32(vlib.Pick(40, 600))
 	var ran int32
@@ -578,6 +598,19 @@ func TestConcurrentTransfers(t *testing.T) {
 		d.RefusedMeanwhile = rapid.IntRange(0, 2).Draw(rt, "refusedMeanwhile") == 0
 		vlib.Tap.Reset()
 		problem, inconclusive := runConcurrent(d)
+		if problem != "" && !inconclusive && isTimeBound(problem) {
+			// A transfer that is late is not a transfer that is wrong: on a machine busy with other work a KCP or DNS
+			// carrier can miss any wall-clock bound (and the multiplexer's own keep-alive then ends the session). A case
+			// that ran into a time bound is run once more, alone; it counts only when it is late again.
+			first := problem
+			time.Sleep(3 * time.Second)
+			vlib.Tap.Reset()
+			problem, inconclusive = runConcurrent(d)
+			if problem == "" && !inconclusive {
+				vlib.Rec.Inconclusive("late-not-reproduced: " + first[:minInt(100, len(first))])
+				return
+			}
+		}
 		if inconclusive {
 			vlib.Rec.Inconclusive("bind")
 			return
